@@ -182,6 +182,10 @@ pub fn gen_rexpr(r: &mut Rng, ty: Ty, depth: u32) -> RestrictedExpr {
     }
 }
 
+/// stores built by `gen_world` whose ancestor sets are not the reachability of their parent edges (drained by the streams whose
+/// property depends on `in`: c01, c02)
+pub static CLOSURE_MISMATCH: std::sync::Mutex<Vec<String>> = std::sync::Mutex::new(Vec::new());
+
 pub fn gen_world(r: &mut Rng) -> World {
     // candidate uids: types x first 4 eids, each present with prob 60 %
     let mut present: Vec<EntityUID> = Vec::new();
@@ -231,13 +235,47 @@ pub fn gen_world(r: &mut Rng) -> World {
                 .expect("entity attrs evaluate"),
         );
     }
-    let entities = Entities::from_entities(
-        ents,
-        None::<&NoEntitiesSchema>,
-        TCComputation::ComputeNow,
-        Extensions::all_available(),
-    )
-    .expect("acyclic by construction");
+    // what `in` must mean in this world: reachability over the parent edges written above (dangling parents included)
+    let direct: HashMap<EntityUID, HashSet<EntityUID>> = ents.iter().map(|e| (e.uid().clone(), e.parents().cloned().collect())).collect();
+    // a third of the worlds are built by a HISTORY (several `add_entities` batches in a shuffled order, so that batches attach
+    // above and below entities already present) instead of one `from_entities` call; the choices come from a side generator so
+    // that the main random stream is the same either way
+    let mut hr = Rng(r.0 ^ 0x5DEECE66D1CE4E5B);
+    let entities = if ents.len() >= 2 && hr.chance(35) {
+        let mut shuffled = ents;
+        for i in (1..shuffled.len()).rev() {
+            let j = hr.below(i + 1);
+            shuffled.swap(i, j);
+        }
+        let nb = 2 + hr.below(3);
+        let mut store = Entities::new();
+        for b in 0..nb {
+            let lo = b * shuffled.len() / nb;
+            let hi = (b + 1) * shuffled.len() / nb;
+            store = store
+                .add_entities(shuffled[lo..hi].iter().cloned().map(std::sync::Arc::new), None::<&NoEntitiesSchema>, TCComputation::ComputeNow, Extensions::all_available())
+                .expect("acyclic by construction");
+        }
+        store
+    } else {
+        Entities::from_entities(ents, None::<&NoEntitiesSchema>, TCComputation::ComputeNow, Extensions::all_available()).expect("acyclic by construction")
+    };
+    for e in entities.iter() {
+        let mut want: HashSet<EntityUID> = HashSet::new();
+        let mut todo: Vec<EntityUID> = direct.get(e.uid()).map(|s| s.iter().cloned().collect()).unwrap_or_default();
+        while let Some(u) = todo.pop() {
+            if want.insert(u.clone()) {
+                if let Some(ps) = direct.get(&u) { todo.extend(ps.iter().cloned()); }
+            }
+        }
+        let got: HashSet<EntityUID> = e.ancestors().cloned().collect();
+        if got != want {
+            let show = |s: &HashSet<EntityUID>| { let mut v: Vec<String> = s.iter().map(|u| u.to_string()).collect(); v.sort(); v.join(", ") };
+            if let Ok(mut l) = CLOSURE_MISMATCH.lock() {
+                if l.len() < 20 { l.push(format!("{}: ancestors in the store [{}], reachable over parent edges [{}]", e.uid(), show(&got), show(&want))); }
+            }
+        }
+    }
     let pick_uid = |r: &mut Rng, ty: &str| -> EntityUID { mk_uid(ty, EIDS[r.below(4)]) };
     let pt = if r.chance(80) { "User" } else { "Group" };
     let principal = pick_uid(r, pt);
